@@ -284,6 +284,7 @@ pub fn run_c01(o: &Opts) -> Report {
 fn malformed_inputs(rng: &mut Rng, fm: &Fm, n: usize, thorough: bool) -> Vec<String> {
     let pool = keyword_pool(fm.e);
     let mut out = stress_inputs(fm.e, rng, 64);
+    out.extend(boundary_inputs(fm.e));
     let vals = value_stream(rng, fm, n / 4 + 4, thorough);
     for v in &vals {
         let s = fm.e.format_narsese(v);
@@ -300,6 +301,9 @@ fn malformed_inputs(rng: &mut Rng, fm: &Fm, n: usize, thorough: bool) -> Vec<Str
         }
         out.push(m);
         out.push(mutate(&s, rng, &pool));
+        if rng.chance(1, 4) {
+            out.extend(edge_whitespace(&s));
+        }
     }
     out
 }
@@ -484,6 +488,11 @@ pub fn run_c08(o: &Opts) -> Report {
             let c: Vec<char> = s.chars().collect();
             frags.push(c[..rng.below(c.len() + 1)].iter().collect());
         }
+        for _ in 0..4 {
+            let s = rng.pick(&complete).clone();
+            frags.extend(edge_whitespace(&s));
+        }
+        frags.extend(boundary_inputs(e).into_iter().filter(|_| rng.chance(1, 12)));
         let n_hist = (o.n / 6).max(10);
         for _ in 0..n_hist {
             let k = rng.range(2, if o.thorough { 8 } else { 5 });
@@ -737,21 +746,9 @@ pub fn run_c10(o: &Opts) -> Report {
     finish(o, "C10", rep, cases)
 }
 
-// -------------------------------------------------------------------------------------------
-// C12: parser / fold output is well-formed and printable
-// -------------------------------------------------------------------------------------------
-pub fn run_c12(o: &Opts) -> Report {
-    let mut rep = Report::new(
-        "C12",
-        "malformed and well-formed strings x 3 formats through the enum parser (model vs real outcome), plus lexical values with garbage fields through fold: on the real code every Ok value has truth/budget in [0,1], image index <= component count, non-empty non-placeholder names, (parser) no empty compound/set and negation/difference arity, \
-         and formats in all three formats and Typst without panicking; distinct = distinct (format, input); non-trivial = inputs whose result is Ok",
-    );
-    let mut rng = Rng::new(o.seed ^ 0xC12);
-    let mut cx = Ctx { rep: &mut rep, cases: vec![] };
-    for fm in formats() {
-        let e = fm.e;
-        let mut inputs = malformed_inputs(&mut rng, &fm, o.n / 3, o.thorough);
-        // boundary texts aimed at the range / emptiness / arity checks
+/// texts aimed at the range / emptiness / arity checks and at the back-off between budget and `$`-variables
+pub fn boundary_inputs(e: &'static EFmt) -> Vec<String> {
+    let mut inputs: Vec<String> = vec![];
         let (tl, tr, ts) = (e.sentence.truth_brackets.0, e.sentence.truth_brackets.1, e.sentence.truth_separator);
         let (bl, br, bs) = (e.task.budget_brackets.0, e.task.budget_brackets.1, e.task.budget_separator);
         let c = &e.compound;
@@ -781,6 +778,38 @@ pub fn run_c12(o: &Opts) -> Report {
             inputs.push(format!("{}{}", p, pj));
             inputs.push(format!("{}{p}{}", e.statement.brackets.0, e.statement.brackets.1));
         }
+    // numerically named prefixed atoms as whole terms (the budget bracket may coincide with a variable prefix)
+    let pj = e.sentence.punctuation_judgement;
+    for p in crate::wf::atom_prefixes(e) {
+        for name in ["1", "0", "12", "0.5", "1x", "x"] {
+            for tail in ["", pj, &format!(" {}", pj), &format!("{} ", pj), e.sentence.punctuation_question] {
+                inputs.push(format!("{}{}{}", p, name, tail));
+            }
+        }
+    }
+    inputs
+}
+
+/// the same text with non-space Unicode whitespace at its edges (the enum parser skips only the format's space)
+pub fn edge_whitespace(s: &str) -> Vec<String> {
+    vec![format!("{}\n", s), format!("\t{}", s), format!("{}\r\n", s), format!("\u{3000}{}", s), format!("{}\u{a0}", s), format!(" {} ", s)]
+}
+
+// -------------------------------------------------------------------------------------------
+// C12: parser / fold output is well-formed and printable
+// -------------------------------------------------------------------------------------------
+pub fn run_c12(o: &Opts) -> Report {
+    let mut rep = Report::new(
+        "C12",
+        "malformed and well-formed strings x 3 formats through the enum parser (model vs real outcome), plus lexical values with garbage fields through fold: on the real code every Ok value has truth/budget in [0,1], image index <= component count, non-empty non-placeholder names, (parser) no empty compound/set and negation/difference arity, \
+         and formats in all three formats and Typst without panicking; distinct = distinct (format, input); non-trivial = inputs whose result is Ok",
+    );
+    let mut rng = Rng::new(o.seed ^ 0xC12);
+    let mut cx = Ctx { rep: &mut rep, cases: vec![] };
+    for fm in formats() {
+        let e = fm.e;
+        let mut inputs = malformed_inputs(&mut rng, &fm, o.n / 3, o.thorough);
+        inputs.extend(boundary_inputs(e));
         let cap = if o.thorough { 200 } else { 60 };
         for s in inputs {
             if s.chars().count() > cap {
@@ -892,6 +921,21 @@ pub fn run_c15(o: &Opts) -> Report {
                     }
                 }
                 _ => cx.fail("classify", "lexical parser rejected / panicked on a well-formed item combination", format!("[{}] {:?}", fm.name, s), "Ok".into(), "Err/PANIC".into(), None),
+            }
+        }
+        // both parsers must classify identically, also around the `$`-variable / budget back-off
+        for s in boundary_inputs(e) {
+            if s.chars().count() > 40 {
+                continue;
+            }
+            let r = cx.parse_case(&fm, &s);
+            let lr = guard(|| fm.l.parse(&s).ok());
+            cx.rep.evaluations += 1;
+            if let (Ok(Some(v)), Some(Some(lv))) = (&r, &lr) {
+                let k = if lv.is_task() { 2 } else if lv.is_sentence() { 1 } else { 0 };
+                if k != kind_of(v) {
+                    cx.fail("classify", "enum and lexical parser classify the same text differently", format!("[{}] {:?}", fm.name, s), ["term", "sentence", "task"][k].into(), ["term", "sentence", "task"][kind_of(v)].into(), None);
+                }
             }
         }
         // casts and wrappers on enum values
